@@ -1380,7 +1380,9 @@ class Py2Cpp(ITranspiler):
 		return self.render(node, 'operation/unary_operator', vars={'operator': operator, 'value': value})
 
 	def on_not_compare(self, node: defs.NotCompare, operator: str, value: str) -> str:
-		return self.render(node, 'operation/unary_operator', vars={'operator': '!', 'value': value})
+		# XXX C++の`!`は全ての二項演算子より結合が強いため、二項演算の被演算子は括弧で保護する (例: `not a == b` -> `!(a == b)`)
+		guarded_value = f'({value})' if self.is_regrouped_operand(node.value, '!') else value
+		return self.render(node, 'operation/unary_operator', vars={'operator': '!', 'value': guarded_value})
 
 	def on_or_compare(self, node: defs.OrCompare, elements: list[str]) -> str:
 		return self.proc_binary_operation(node, elements)
@@ -1439,12 +1441,40 @@ class Py2Cpp(ITranspiler):
 		default_is_list = default_raw.node.is_a(defs.List)
 		return self.render(node, 'operation/binary_fill_list', vars={'value_type': value_type, 'default': default, 'size': size, 'default_is_list': default_is_list})
 
+	def is_regrouped_operand(self, operand: Node, operator: str) -> bool:
+		"""被演算子をそのまま出力するとC++の優先順位によって結合が変化するか判定
+
+		Args:
+			operand: 被演算子のノード
+			operator: 適用する演算子
+		Returns:
+			True = 括弧による保護が必要
+		Note:
+			```
+			### PythonとC++で優先順位が異なる組み合わせ
+			* 比較演算子とビット演算子(|, ^, &) (例: `a & b == c` -> `(a & b) == c`)
+			* `not`と全ての二項演算子 (例: `not a == b` -> `!(a == b)`)
+			### 対象外
+			* in/not.inは関数呼び出しに展開されるため保護不要
+			```
+		"""
+		if not isinstance(operand, defs.BinaryOperator):
+			return False
+
+		operand_operators = [element.tokens for index, element in enumerate(operand.elements) if index % 2 == 1]
+		precedences = [CppOperatorPrecedences.binary[in_operator] for in_operator in operand_operators if in_operator in CppOperatorPrecedences.binary]
+		if len(precedences) == 0:
+			return False
+
+		return min(precedences) < CppOperatorPrecedences.precedence_of(operator)
+
 	def proc_binary_operation_expression(self, node: defs.BinaryOperator, left_raw: IReflection, right_raws: list[IReflection], left: str, operators: list[str], rights: list[str]) -> str:
-		primary = left
+		operands = [element for index, element in enumerate(node.elements) if index % 2 == 0]
+		primary = f'({left})' if self.is_regrouped_operand(operands[0], operators[0]) else left
 		primary_raw = left_raw
 		for index, right_raw in enumerate(right_raws):
 			operator = operators[index]
-			secondary = rights[index]
+			secondary = f'({rights[index]})' if self.is_regrouped_operand(operands[index + 1], operator) else rights[index]
 			if operator in ['in', 'not.in']:
 				primary = self.render(node, 'operation/binary_in', vars={'left': primary, 'operator': operator, 'right': secondary, 'right_is_dict': right_raw.impl(refs.Object).type_is(dict)})
 			else:
@@ -1540,6 +1570,39 @@ class Py2Cpp(ITranspiler):
 
 	def on_fallback(self, node: Node) -> str:
 		return node.tokens
+
+
+class CppOperatorPrecedences:
+	"""C++の演算子の優先順位 (値が大きいほど結合が強い)
+
+	Note:
+		in/not.inは関数呼び出しに展開されるため対象外
+	"""
+
+	unary: ClassVar[int] = 11
+	binary: ClassVar[dict[str, int]] = {
+		'or': 1,
+		'and': 2,
+		'|': 3,
+		'^': 4,
+		'&': 5,
+		'==': 6, '!=': 6, 'is': 6, 'is.not': 6,
+		'<': 7, '>': 7, '<=': 7, '>=': 7,
+		'<<': 8, '>>': 8,
+		'+': 9, '-': 9,
+		'*': 10, '/': 10, '%': 10,
+	}
+
+	@classmethod
+	def precedence_of(cls, operator: str) -> int:
+		"""演算子の優先順位を取得
+
+		Args:
+			operator: 演算子
+		Returns:
+			優先順位。二項演算子以外(単項演算子・in/not.in)は最大値
+		"""
+		return cls.binary.get(operator, cls.unary)
 
 
 class ClassOperationMaps:
